@@ -457,6 +457,11 @@ pub struct Part<C: 'static> {
     /// libFuzzer entry: maps a case decoded from raw bytes (bytede.rs) into the generator's domain;
     /// None = the part is not fuzzed
     pub fuzz: Option<fn(C) -> C>,
+    /// per-case watchdog in seconds (0 = none): the case runs on a helper thread; if it does not
+    /// finish in time it is reported as a hang suspect (confirmed by re-execution) and the thread is
+    /// abandoned. Every end-to-end part has one, so a change that makes some call block for ever
+    /// cannot stall the whole check.
+    pub watchdog_s: u64,
 }
 
 #[derive(Serialize, Deserialize)]
@@ -492,6 +497,29 @@ impl<C> Part<C>
 where
     C: Clone + Debug + Serialize + DeserializeOwned + Send + 'static,
 {
+    /// Execute one case, under the part's watchdog if it has one.
+    pub fn run_exec(&self, case: &C) -> Outcome {
+        if self.watchdog_s == 0 {
+            return (self.exec)(case);
+        }
+        let (tx, rx) = std::sync::mpsc::channel();
+        let c = case.clone();
+        let exec = self.exec;
+        let spawned = std::thread::Builder::new().name(format!("avh-case-{}", self.name)).spawn(move || {
+            let _ = tx.send(exec(&c));
+        });
+        if spawned.is_err() {
+            return (self.exec)(case);
+        }
+        match rx.recv_timeout(Duration::from_secs(self.watchdog_s)) {
+            Ok(o) => o,
+            Err(_) => Outcome::hang(
+                "case-watchdog",
+                format!("the case did not finish within {} s (typical: milliseconds to a few seconds); some call never returned", self.watchdog_s),
+            ),
+        }
+    }
+
     fn shrink(
         &self,
         tree: &mut dyn ValueTree<Value = C>,
@@ -500,11 +528,14 @@ where
         let mut best = tree.current();
         let mut best_fail = first.clone();
         let mut evals = 0usize;
-        let deadline = Instant::now() + Duration::from_secs(if first.hang { 45 } else { 90 });
+        let deadline = Instant::now() + Duration::from_secs(if first.hang { 25 } else { 90 });
         let budget = if std::env::var("AVH_NO_SHRINK").is_ok() {
             0
+        } else if first.sig == "case-watchdog" {
+            // each evaluation would cost a full watchdog period
+            0
         } else if first.hang {
-            self.shrink_budget.min(12)
+            self.shrink_budget.min(3)
         } else {
             self.shrink_budget
         };
@@ -517,7 +548,7 @@ where
             }
             let cur = tree.current();
             evals += 1;
-            let out = (self.exec)(&cur);
+            let out = self.run_exec(&cur);
             let same = out
                 .fail
                 .as_ref()
@@ -593,7 +624,7 @@ where
 
     fn replay(&self, case: &Value) -> Result<Outcome, String> {
         let c: C = serde_json::from_value(case.clone()).map_err(|e| format!("bad case: {}", e))?;
-        Ok((self.exec)(&c))
+        Ok(self.run_exec(&c))
     }
 
     fn fuzz_bytes(&self, data: &[u8]) -> Option<(Value, Failure)> {
@@ -681,7 +712,7 @@ where
                     }
                 };
                 pr.replays_run += 1;
-                let out = (self.exec)(&c);
+                let out = self.run_exec(&c);
                 if let Some(fl) = out.fail {
                     if rep.is_known_open(&fl.sig) {
                         *rep.known_hits.entry(fl.sig.clone()).or_default() += 1;
@@ -786,7 +817,7 @@ where
                             };
                             let _ = std::fs::write(j, serde_json::to_string(&file).unwrap_or_default());
                         }
-                        let out = (self.exec)(&case);
+                        let out = self.run_exec(&case);
                         let rendered = render(&case);
                         let key = hash_str(&serde_json::to_string(&rendered).unwrap_or_default());
                         let mut to_shrink: Option<Failure> = None;
@@ -853,8 +884,16 @@ where
             let mut reproduced = 0;
             let runs = self.confirm_runs.max(1);
             let mut last = fail.clone();
-            for _ in 0..runs {
-                let out = (self.exec)(&case);
+            let outs: Vec<Outcome> = if fail.sig == "case-watchdog" {
+                // pure waiting: the re-executions run side by side
+                std::thread::scope(|sc| {
+                    let hs: Vec<_> = (0..runs).map(|_| sc.spawn(|| self.run_exec(&case))).collect();
+                    hs.into_iter().filter_map(|h| h.join().ok()).collect()
+                })
+            } else {
+                (0..runs).map(|_| self.run_exec(&case)).collect()
+            };
+            for out in outs {
                 if let Some(f) = out.fail {
                     if f.sig == fail.sig {
                         reproduced += 1;
